@@ -35,6 +35,23 @@ def splitOff (v : Bytes) (n : Nat) : Bytes × Bytes := (v.take n, v.drop n)
 /-- `clear()`. -/
 def clear (_ : Bytes) : Bytes := []
 
+/-- `copy_to_bytes(n)` / `copy_to_slice(&mut [0; n])`: (what stays, what is handed out) =
+    (`[n, len)`, `[0, n)`). -/
+def copyOut (v : Bytes) (n : Nat) : Bytes × Bytes := (v.drop n, v.take n)
+
+/-- The number a byte string denotes in big-endian (network) order: the first byte is the most
+    significant one. -/
+def beValue : Bytes → Nat
+  | [] => 0
+  | b :: bs => b.toNat * 256 ^ bs.length + beValue bs
+
+/-- `get_u8` / `get_u16` / `get_u32` (`k` = 1 / 2 / 4): (what stays, the number read) =
+    (`[k, len)`, the big-endian value of `[0, k)`). -/
+def getBe (v : Bytes) (k : Nat) : Bytes × Nat := (v.drop k, beValue (v.take k))
+
+/-- `has_remaining()`. -/
+def hasRemaining (v : Bytes) : Bool := !v.isEmpty
+
 /-- The last `n` bytes (what `pop` of an `n`-byte tail returns). -/
 def tail (v : Bytes) (n : Nat) : Bytes := v.drop (v.length - n)
 
